@@ -273,11 +273,6 @@ func c07Direct(c *RunCtx, g *Gen) {
 	all := append(cloneBytes(s.w), trailing...)
 	buf := bytes.NewBuffer(cloneBytes(all))
 	recv := newValue(name)
-	if cfg, restore := registryConfig(c, t); cfg != "" {
-		// the receiving process runs with fewer checksum services registered than the sender
-		defer restore()
-		c.Logf("RECEIVER CONFIGURATION %s", cfg)
-	}
 	r := tryDecode(recv, buf)
 	if r.Panic != nil {
 		c.Fail("C07/panic", name, "Decode of a valid encoding followed by %d trailing bytes panicked: %v", len(trailing), r.Panic)
